@@ -20,6 +20,11 @@ func runC11(c *Ctx) {
 	c11BodyLength(c)
 	c11KeepAlive(c)
 	c11LineAssembly(c)
+	// every decoded message reaches the loop, nothing shortens a read, and the length header is found in any spelling
+	ruleBlockingHandOff(c, "full-read-only")
+	ruleNoReadDeadline(c, "full-read-only")
+	c17Internals(c)
+	c17CompactTable(c)
 }
 
 func ruleBorrow(c *Ctx, rule string) {
